@@ -2345,6 +2345,40 @@ Proof.
   - destruct HW as (Wf & Pre & HW). apply IH; [|exact HW]. now apply step_Inv_all.
 Qed.
 
+(* ================================================================ caller-owned lists *)
+Lemma xstep_Inv xw x : Inv (fst xw) -> xwfb xw x = true -> xpreb xw x = true -> Inv (fst (fst (xstep xw x))).
+Proof.
+  destruct xw as [w st]. unfold xwfb, xpreb, xstep. cbn [fst snd]. intros HI Wf Pre.
+  destruct (to_op st x) as [o|] eqn:E.
+  - pose proof (step_Inv_all w o HI Wf Pre) as H. destruct (step w o) as [w' e]. exact H.
+  - destruct x; try discriminate; cbn [fst].
+    + exact HI.
+    + destruct (i <? length (clist_of st k)); exact HI.
+    + destruct (clist_of st k); exact HI.
+Qed.
+Lemma xstep_store_frame w st x o : to_op st x = Some o -> snd (fst (xstep (w, st) x)) = st.
+Proof. intro E. unfold xstep. rewrite E. destruct (step w o). reflexivity. Qed.
+Lemma xstep_by_value w st x o : to_op st x = Some o ->
+  fst (fst (xstep (w, st) x)) = fst (step w o) /\ snd (xstep (w, st) x) = snd (step w o).
+Proof. intro E. unfold xstep. rewrite E. destruct (step w o). split; reflexivity. Qed.
+Lemma xstep_world_frame w st x : to_op st x = None -> fst (fst (xstep (w, st) x)) = w.
+Proof.
+  intro E. unfold xstep. rewrite E. destruct x; try discriminate; cbn [fst]; try reflexivity.
+  - destruct (i <? length (clist_of st k)); reflexivity.
+  - destruct (clist_of st k); reflexivity.
+Qed.
+Fixpoint xwithin (xw : xworld) (xs : list xop) : Prop :=
+  match xs with
+  | [] => True
+  | x :: t => xwfb xw x = true /\ xpreb xw x = true /\ xwithin (fst (xstep xw x)) t
+  end.
+Theorem xhistory_Inv xs : forall xw, Inv (fst xw) -> xwithin xw xs -> Inv (fst (xrun xw xs)).
+Proof.
+  unfold xrun. induction xs as [|x t IH]; intros xw HI HW; simpl.
+  - exact HI.
+  - destruct HW as (Wf & Pre & HW). apply IH; [|exact HW]. now apply xstep_Inv.
+Qed.
+
 (* ================================================================ a small universe used by the examples in Props.v *)
 Definition setup3 : list op :=
   [ONewUnit 1 1 true true FNone FNone; ONewUnit 2 1 false true FNone FNone; ONewUnit 2 2 true false FNone FNone].
